@@ -491,6 +491,10 @@ func (x *fnCtx) addVC(st *State, fnShort, kind string, ord int, sub string, goal
 	if x.con != nil && x.con.OnlyLayers != nil && !x.con.OnlyLayers[kindLayer(kind)] {
 		return
 	}
+	if x.con != nil && x.con.SkipKinds[kind] {
+		x.eng.logAbs("%s: obligations of kind %s are not generated (contract: skip)", x.short, kind)
+		return
+	}
 	if e.both {
 		isLockKind := false
 		switch kind {
